@@ -129,7 +129,8 @@ func doRun(cs *Case) J {
 	for _, it := range out.Items {
 		items = append(items, canonItem(it, cs.BodyLimit, !cs.NoStage))
 	}
-	res := J{"id": cs.ID, "c": out.C, "s": out.S, "items": items, "residue": out.Residue, "nc": len(c0), "ns": len(s0)}
+	res := J{"id": cs.ID, "c": out.C, "s": out.S, "items": items, "residue": out.Residue, "nc": len(c0), "ns": len(s0),
+		"cap": []int{out.CapReq, out.CapResp, out.LeftC, out.LeftS}}
 	if out.Timeout {
 		res["timeout"] = true
 	}
